@@ -21,6 +21,7 @@ func (c04) ID() string { return "C04" }
 func (c04) Rule() string {
 	return "each run: seeded tree (regular strings), cluster O(full) -> U_1..U_m (m=1..3, each with its own drawn knowledge subset: " +
 		"none / single knock-out of a family occurring in the message / only-one-known / random subset) -> K(full), plus the direct control route O -> K; " +
+		"1/4 of the runs replay the route at knowing processes with the unknown families (and, half of the time, the type URLs of their payloads) renamed on the wire and demand the same observations; " +
 		"distinct = (constructor-shape signature x sequence of knowledge profiles); non-trivial = tree has >= 2 layers and at least one " +
 		"family of the message is unknown at some intermediary"
 }
